@@ -13,7 +13,7 @@ VARIANTS = [
      'edits': [(I, """            if chains and line[21] not in chains:
                 continue
 """, ""),
-               (I, "            if not (atom.element == 'H' and not keep_protons):", "            if not (atom.element == 'H' and not keep_protons) and not (chains and line[21] not in chains):")]},
+               (I, "            yield (conformation, atom)\n", "            if not (chains and line[21] not in chains):\n                yield (conformation, atom)\n")]},
     {'name': 'filter-on-normalised-chain-id', 'rule': 'C13.R2',
      'edits': [(I, "if chains and line[21] not in chains:", "if chains and (line[21].strip() or '_') not in chains:")]},
     {'name': 'filter-wrong-column', 'rule': 'C13.R2',
